@@ -143,7 +143,7 @@ func c01R10(p *core.Program, r *core.Report, w *core.Func) {
 			if u, ok := e.(*ast.UnaryExpr); ok {
 				e = ast.Unparen(u.X) // &ff.body of a value buffer
 			}
-			if isRole(p, core.FieldOf(info, e), "file.body") {
+			if roleValue(p, info, e, "file.body") {
 				return true
 			}
 			v := core.VarOf(info, e)
